@@ -561,6 +561,31 @@ func (c *Ctx) entailsLinearRec(env *linEnv, pc *Formula, facts []LinFact, depth 
 		addLens(lf.a)
 		addLens(lf.b)
 	}
+	// library index searches: slices.Index / IndexFunc (and sort.Search*) return −1 ≤ r < len(s)
+	// (sort.Search: 0 ≤ r ≤ n)
+	seenIdx := map[string]bool{}
+	addIdx := func(t *Term) {
+		if t.Kind != "call" || len(t.Args) < 1 || seenIdx[t.Key()] {
+			return
+		}
+		if strings.HasPrefix(t.Name, "slices.Index") {
+			seenIdx[t.Key()] = true
+			v := linVar(t)
+			background = append(background, leq(linConst(-1), v, 0, t.String()+" ≥ −1"))
+			ln := linVar(lenOf("len", t.Args[0]))
+			background = append(background, leq(v, ln, -1, t.String()+" < len"))
+			background = append(background, Constraint{lin: ln.scale(big.NewRat(-1, 1)), why: "len ≥ 0"})
+		}
+	}
+	for _, at := range full.Atoms() {
+		at.walk(func(x *Term) bool { addIdx(x); return true })
+	}
+	for _, f := range facts {
+		f.A.walk(func(x *Term) bool { addIdx(x); return true })
+		if f.B != nil {
+			f.B.walk(func(x *Term) bool { addIdx(x); return true })
+		}
+	}
 	// induction variables: φ(c0, φ + k) with k > 0 never drops below c0 (covers range indices)
 	seenInd := map[string]bool{}
 	var indWalk func(t *Term)
